@@ -3,7 +3,7 @@
    list of a member node, whose five links are reset: the heap afterwards represents the tree with the replacement's
    element at the node's position. *)
 From Coq Require Import NArith List Bool Lia PeanoNat.
-From FV Require Import Rb.RbModel Rb.RbLayout Rb.RbPtr Rb.RbPtrBase Rb.RbPtrRefineRot Rb.RbPtrRefineIns.
+From FV Require Import Rb.RbModel Rb.RbLayout Rb.RbPtr Rb.RbPtrBase Rb.RbPtrRefineRot Rb.RbPtrRefineIns Rb.RbPtrAnnot.
 Import ListNotations.
 
 Section Replace.
@@ -255,7 +255,10 @@ Section Replace.
     NoDup (id_of xm :: ids (plug ctx (T c l x a r))) ->
     reprs None s (plug ctx (T c l x a r)) -> length ctx <= fuel ->
     exists s', replace_node agg aeqb ek fuel s (id_of x) (id_of xm) = POk s'
-               /\ reprs None s' (plug ctx (T c l xm tt r)).
+               /\ reprs None s' (plug ctx (T c l xm tt r))
+               /\ (agg_ok agg aeqb -> ek (id_of xm) = xm -> tkeys elt id_of ek (plug ctx (T c l x a r)) ->
+                   ainv elt annot id_of agg (p_annots s) (plug ctx (T c l x a r)) ->
+                   ainv elt annot id_of agg (p_annots s') (plug ctx (T c l xm tt r))).
   Proof.
     intros Nd H Hf. set (m := id_of xm) in *.
     assert (Nd0 : NoDup (ids (plug ctx (T c l x a r)))) by (apply NoDup_cons_iff in Nd; tauto).
@@ -338,6 +341,50 @@ Section Replace.
     { rewrite G1. apply tinv_plug in Tc. apply Tc. }
     destruct (aggregate_path_ok _ _ id_of agg aeqb ek None ctx _ fuel sd Cc Hf) as (se & E5 & H5h & H5r).
     rewrite E5. exists se. split; [reflexivity|].
+    split.
+    2:{ intros [Ao1 Ao2] Km Hk Ha.
+        assert (Anc : p_annots sc = p_annots s).
+        { subst sc sb sa s0. unfold rn_list, rn_tree. cbv zeta.
+          repeat match goal with |- context [match ?o with Some _ => _ | None => _ end] => destruct o end;
+            destruct ctx as [|[] ?]; reflexivity. }
+        rewrite ids_plug in Ndm. cbn [inorder] in Ndm.
+        apply tkeys_plug in Hk. destruct Hk as [_ Kc].
+        apply ainv_plug in Ha. destruct Ha as [Hs Hc0]. cbn [RbPtrAnnot.ainv RbPtrAnnot.aval root_id option_map] in Hs, Hc0.
+        destruct Hs as (_ & Al & Ar).
+        pose proof Tc as Tc'. apply tinv_plug in Tc'. destruct Tc' as [Tm _]. cbn [tinv root_id] in Tm.
+        destruct Tm as ((_ & ML & MR & _) & _). fold m in ML, MR.
+        set (an := p_annots s) in *.
+        assert (Ed : forall i, p_annots sd i = if N.eqb i m then agg xm (aval elt annot id_of an l) (aval elt annot id_of an r) else an i).
+        { intros i. subst sd. rewrite (aggregate_node_annots _ _ agg aeqb ek Ao1). unfold agg_at. rewrite ML, MR, Anc.
+          rewrite Km. reflexivity. }
+        assert (Nmc : ~ In m (cids id_of ctx)) by (unfold cids; unfold m; ni Ndm).
+        assert (Ho : acopen elt annot id_of agg (p_annots sd) ctx).
+        { apply acinv_open with (hv := Some (an (id_of x))). revert Hc0. apply acinv_ext.
+          intros j Hj. rewrite Ed. destruct (N.eqb_spec j m) as [->|]; [contradiction|reflexivity]. }
+        destruct (aggregate_path_annots _ _ id_of agg aeqb ek Ao1 None ctx (ids (T c l xm tt r)) (Some m) fuel sd) as (se' & E5' & _ & _ & Q1 & Q2);
+          try assumption.
+        { apply NoDup_cons_iff in Ndm. destruct Ndm as [Nm0 Ndm].
+          apply NoDup_count_occ with (decA := N.eq_dec). intros j. pose proof (count_le_1 _ j Ndm) as C0.
+          assert (Cm : count_occ N.eq_dec (cbefore id_of ctx ++ (ids l ++ id_of x :: ids r) ++ cafter id_of ctx) m = 0)
+            by (apply count_occ_not_In; rewrite map_app in Nm0; exact Nm0).
+          cbn [inorder]. repeat rewrite ?map_app, ?count_occ_app in *. cbn [map count_occ] in *. fold m.
+          destruct (N.eq_dec m j) as [<-|]; destruct (N.eq_dec (id_of x) _); try lia; exfalso; congruence. }
+        { intros i Hi. injection Hi as <-. cbn [inorder]. rewrite map_app, in_app_iff. right. left. reflexivity. }
+        rewrite E5 in E5'. injection E5' as <-.
+        cbn [option_map] in Q1. rewrite Ed, N.eqb_refl in Q1.
+        assert (Nmn : ~ In m (cnodes elt id_of ctx)) by (intros Hc1; apply Nmc, cnodes_cids, Hc1).
+        assert (Fsub : forall t0 : tree, (forall j, In j (ids t0) -> ~ In j (cids id_of ctx) /\ j <> m) ->
+                                         forall j, In j (ids t0) -> p_annots se j = an j).
+        { intros t0 H0 j Hj. destruct (H0 j Hj) as [H1 H2]. rewrite Q2 by (intros Hc1; apply H1, cnodes_cids, Hc1).
+          rewrite Ed. destruct (N.eqb_spec j m); [contradiction|reflexivity]. }
+        assert (Fl : forall j, In j (ids l) -> p_annots se j = an j).
+        { apply Fsub. intros j Hj. split; [unfold cids; ni Ndm|intros ->; unfold m in *; nix Ndm (id_of xm)]. }
+        assert (Fr : forall j, In j (ids r) -> p_annots se j = an j).
+        { apply Fsub. intros j Hj. split; [unfold cids; ni Ndm|intros ->; unfold m in *; nix Ndm (id_of xm)]. }
+        apply ainv_plug. cbn [RbPtrAnnot.ainv RbPtrAnnot.aval root_id option_map]. fold m.
+        rewrite (Q2 m Nmn), Ed, N.eqb_refl.
+        rewrite (aval_ext _ _ id_of an _ l Fl), (aval_ext _ _ id_of an _ r Fr).
+        split; [|exact Q1]. split; [reflexivity|]. split; (eapply ainv_ext; [|eassumption]); assumption. }
     apply reprS_split. rewrite H5h, H5r, G1, G2. split.
     - split; [rewrite root_plug; cbn [root_id]; fold m; cbn; rewrite U3; exact T1|]. split; [exact Tc|].
       intros j Hj. destruct (N.eq_dec j (id_of x)) as [->|Hne].
